@@ -134,6 +134,41 @@ def scramble(rnd, c):
     return c2
 
 
+def layered_circuit(rnd, width, depth, kinds=('AND2', 'OR2', 'XOR2', 'NAND2', 'NOR2'), nout=4, fanout_hub=0):
+    """A LARGE circuit (width x depth two-input gates, bench style): scale scenarios - counters, indices and reference
+    counts beyond 8/16-bit ranges.  fanout_hub > 0: the first input additionally drives that many extra buffers."""
+    Circuit, Node, Line = kyupy_mods()
+    c = Circuit('layered')
+    cur = []
+    for i in range(width):
+        f = Node(c, f'i{i}')
+        c.io_nodes.append(f)
+        cur.append(f)
+    hub = cur[0]
+    for d in range(depth):
+        nxt = []
+        for i in range(width):
+            g = Node(c, f'g{d}_{i}', rnd.choice(kinds))
+            Line(c, rnd.choice(cur), g)
+            Line(c, rnd.choice(cur), g)
+            f = Node(c, f'g{d}_{i}')
+            Line(c, g, f)
+            nxt.append(f)
+        cur = nxt
+    for i in range(fanout_hub):
+        b = Node(c, f'hb{i}', 'BUF1')
+        Line(c, hub, b)
+        f = Node(c, f'hb{i}')
+        Line(c, b, f)
+        if i < 2:
+            cur.append(f)
+    for i in range(nout):
+        o = Node(c, f'o{i}')
+        Line(c, cur[-1 - i], o)
+        c.io_nodes.append(o)
+    return c
+
+
 def parity_circuit(rnd, nin=None, style='v'):
     """Parity logic over many inputs: every input transition reaches the outputs, so waveforms get long and overflow
     small capacities.  Several taps of the chain are ports."""
